@@ -189,6 +189,11 @@ def joinWith (sep : String) (xs : List String) : String := sep.intercalate xs
 
 def renderToks (ts : List Nat) : String := joinWith "." (ts.map toString)
 
+/-- the harness's inspector keeps `(count, hash)` of the tokens it was fed -/
+def renderInsp (ts : List Nat) : String :=
+  let h := ts.foldl (fun h t => (h * 31 + t + 1) % 18446744073709551616) 0
+  s!"{ts.length}:{h}"
+
 partial def renderVal : Val → String
   | .unit => "u"
   | .tok t => s!"t{t}"
@@ -202,7 +207,7 @@ partial def renderVal : Val → String
   | .span s e => s!"(sp {s} {e})"
   | .slice s e => s!"(sl {s} {e})"
   | .nat n => s!"#{n}"
-  | .insp ts => "i" ++ renderToks ts
+  | .insp ts => "i" ++ renderInsp ts
 
 def renderPat : Pat → String
   | .tok t => s!"t{t}"
@@ -236,7 +241,8 @@ def renderTop : TopOut → String
   | .oof => "OOF"
   | .result r final =>
     let out := match r.output with | some v => s!"ok {renderVal v}" | none => "none"
-    s!"R {out} ; {joinWith "|" (r.errs.map renderErr)} ; insp={renderToks final.insp}"
+    let insp := match r.output with | some _ => renderInsp final.insp | none => "-"
+    s!"R {out} ; {joinWith "|" (r.errs.map renderErr)} ; insp={insp}"
 
 def renderEmis : Emis → String
   | .user l => renderErr l.err
@@ -246,7 +252,7 @@ def renderSpec : SOut → String
   | .panic w => s!"P {panicName w}"
   | .oof => "OOF"
   | .fail => "fail"
-  | .ok v s em => s!"ok {renderVal v} ; {joinWith "|" (em.map renderEmis)} ; insp={renderToks s.insp}"
+  | .ok v s em => s!"ok {renderVal v} ; {joinWith "|" (em.map renderEmis)} ; insp={renderInsp s.insp}"
 
 /-! ### cases -/
 
